@@ -58,6 +58,7 @@ func maxAbs(m mat) float64 {
 // the part of the graphics state this property is about (ISO 32000-1 Table 52 + Table 104)
 type gstate struct {
 	ctm                 mat
+	ctmA                mat // the same product formed from the absolute values of all factors (error-bound companion)
 	tc, tw, tz, tl, tfs float64
 	font                string
 }
@@ -80,10 +81,11 @@ type variant struct {
 // for them - descriptor token qintext=y - the reference states tabula's pinned model: a q ... Q pair
 // balanced inside one text object restores Tm and Tlm together with the rest of the state.
 type saved struct {
-	gs      gstate
-	tm, tlm mat
-	dirty   bool
-	inText  bool // the q was executed inside a text object
+	gs        gstate
+	tm, tlm   mat
+	tmA, tlmA mat
+	dirty     bool
+	inText    bool // the q was executed inside a text object
 }
 
 // expect is what the model says about one text-showing operator.
@@ -91,7 +93,7 @@ type expect struct {
 	text       string
 	x, y       float64
 	comparePos bool    // false when the origin depends on glyph advances of an earlier show
-	tol        float64 // absolute tolerance for x and y
+	tolx, toly float64 // tolerance: relTol x (sum of the magnitudes of all terms that add up to the coordinate) + floor
 	size       float64
 	cmpSize    bool // Tm and CTM are both similarity transforms
 	depth      int  // q nesting depth at the show (forms count)
@@ -103,6 +105,8 @@ type machine struct {
 	gs      gstate
 	stack   []saved
 	tm, tlm mat
+	tmA     mat // error-bound companions of tm / tlm (products of absolute values)
+	tlmA    mat
 	inText  bool
 	dirty   bool // Tm was advanced by a show since it was last set from Tlm / Tm operator
 	forms   map[string]*form
@@ -117,31 +121,53 @@ type machine struct {
 }
 
 func newMachine(v variant, forms map[string]*form) *machine {
-	return &machine{v: v, gs: gstate{ctm: ident, tz: 100}, tm: ident, tlm: ident, forms: forms}
+	return &machine{v: v, gs: gstate{ctm: ident, ctmA: ident, tz: 100}, tm: ident, tlm: ident, tmA: ident, tlmA: ident, forms: forms}
+}
+
+// Tolerance. Every coordinate is a sum of products of the numbers written in the program. Next to each
+// matrix the machine keeps the same product formed from absolute values; its translation entries bound the sum
+// of the magnitudes of all terms, so relTol x that bound is a purely RELATIVE tolerance that is fair to huge
+// (1e4-scaled) and tiny (1e-4-scaled) coordinates alike and still ~1e6 times the float64 rounding error of any
+// evaluation order. tolFloor only serves coordinates whose terms are all exactly zero.
+const (
+	relTol   = 1e-9
+	tolFloor = 1e-12
+)
+
+func absMat(x mat) mat {
+	for i := range x {
+		x[i] = math.Abs(x[i])
+	}
+	return x
 }
 
 func (m *machine) concat(x mat) {
 	if m.v.postCm {
 		m.gs.ctm = mul(m.gs.ctm, x)
+		m.gs.ctmA = mul(m.gs.ctmA, absMat(x))
 	} else {
 		m.gs.ctm = mul(x, m.gs.ctm)
+		m.gs.ctmA = mul(absMat(x), m.gs.ctmA)
 	}
 }
 
 func (m *machine) td(tx, ty float64) {
 	if m.v.postTd {
 		m.tlm = mul(m.tlm, translate(tx, ty))
+		m.tlmA = mul(m.tlmA, absMat(translate(tx, ty)))
 	} else {
 		m.tlm = mul(translate(tx, ty), m.tlm)
+		m.tlmA = mul(absMat(translate(tx, ty)), m.tlmA)
 	}
-	m.tm = m.tlm
+	m.tm, m.tmA = m.tlm, m.tlmA
 	m.dirty = false
 }
 
 func (m *machine) show(text string) {
 	trm := mul(m.tm, m.gs.ctm)
 	e := expect{text: text, x: trm[4], y: trm[5], comparePos: !m.dirty, depth: len(m.stack), inForm: m.fdepth > 0}
-	e.tol = 1e-6 + 1e-9*(math.Abs(e.x)+math.Abs(e.y)+maxAbs(trm)+maxAbs(m.tm)+maxAbs(m.gs.ctm))
+	trmA := mul(m.tmA, m.gs.ctmA)
+	e.tolx, e.toly = relTol*trmA[4]+tolFloor, relTol*trmA[5]+tolFloor
 	s1, ok1 := similarity(m.tm)
 	s2, ok2 := similarity(m.gs.ctm)
 	if ok1 && ok2 {
@@ -177,7 +203,7 @@ func (m *machine) run(ops []op) {
 		switch o.k {
 		case "q":
 			if m.textQ || m.needPage(o) {
-				m.stack = append(m.stack, saved{m.gs, m.tm, m.tlm, m.dirty, m.inText})
+				m.stack = append(m.stack, saved{m.gs, m.tm, m.tlm, m.tmA, m.tlmA, m.dirty, m.inText})
 				if len(m.stack) > m.maxQ {
 					m.maxQ = len(m.stack)
 				}
@@ -200,6 +226,7 @@ func (m *machine) run(ops []op) {
 				m.gs = top.gs
 				if !m.v.keepTm {
 					m.tm, m.tlm, m.dirty = top.tm, top.tlm, top.dirty
+					m.tmA, m.tlmA = top.tmA, top.tlmA
 				}
 				m.stack = m.stack[:len(m.stack)-1]
 				if old.ctm != m.gs.ctm {
@@ -207,6 +234,7 @@ func (m *machine) run(ops []op) {
 				}
 				o2, n2 := old, m.gs
 				o2.ctm, n2.ctm = ident, ident
+				o2.ctmA, n2.ctmA = ident, ident
 				if o2 != n2 {
 					m.restoredText = true
 				}
@@ -225,7 +253,7 @@ func (m *machine) run(ops []op) {
 				// §8.10.1: save the graphics state, concatenate /Matrix with the CTM, paint, restore
 				before := m.gs
 				depth := len(m.stack)
-				m.stack = append(m.stack, saved{m.gs, m.tm, m.tlm, m.dirty, false})
+				m.stack = append(m.stack, saved{m.gs, m.tm, m.tlm, m.tmA, m.tlmA, m.dirty, false})
 				if len(m.stack) > m.maxQ {
 					m.maxQ = len(m.stack)
 				}
@@ -251,6 +279,7 @@ func (m *machine) run(ops []op) {
 			if m.needPage(o) {
 				m.inText = true
 				m.tm, m.tlm = ident, ident
+				m.tmA, m.tlmA = ident, ident
 				m.dirty = false
 			}
 		case "ET":
@@ -274,6 +303,7 @@ func (m *machine) run(ops []op) {
 		case "Tm":
 			if m.needText(o) {
 				m.tm, m.tlm = o.m, o.m
+				m.tmA, m.tlmA = absMat(o.m), absMat(o.m)
 				m.dirty = false
 			}
 		case "Td":
@@ -309,8 +339,8 @@ func (m *machine) run(ops []op) {
 			if m.needPage(o) {
 				for k := 0; k < 2; k++ {
 					x, y := apply(o.n[2*k].v, o.n[2*k+1].v, m.gs.ctm)
-					tol := 1e-6 + 1e-9*(math.Abs(x)+math.Abs(y)+maxAbs(m.gs.ctm)*(1+math.Abs(o.n[2*k].v)+math.Abs(o.n[2*k+1].v)))
-					m.out = append(m.out, expect{x: x, y: y, comparePos: true, tol: tol, depth: len(m.stack)})
+					bx, by := apply(math.Abs(o.n[2*k].v), math.Abs(o.n[2*k+1].v), m.gs.ctmA)
+					m.out = append(m.out, expect{x: x, y: y, comparePos: true, tolx: relTol*bx + tolFloor, toly: relTol*by + tolFloor, depth: len(m.stack)})
 				}
 			}
 		default:
@@ -328,4 +358,9 @@ func simulate(p *program, v variant) *machine {
 		m.invalid = "program ends inside a text object or with unbalanced q"
 	}
 	return m
+}
+
+// at reports whether (x, y) is the expected origin within the tolerance.
+func (e expect) at(x, y float64) bool {
+	return math.Abs(x-e.x) <= e.tolx && math.Abs(y-e.y) <= e.toly
 }
